@@ -151,6 +151,15 @@ class MExpander(Expander):
                     return ncf.trace(M(ncf._mul(a.terms, b.T().terms), 2))
                 if a.rank == 1 and b.rank == 1:                         # (a * b).sum() = a^T b
                     return a.matmul(b)
+                if {a.rank, b.rank} == {1, 2}:
+                    # (S * v).sum(axis=1) = S v (one entry per row);  (S * v).sum() = 1^T S v (a single number)
+                    S, v = (a, b) if a.rank == 2 else (b, a)
+                    axis = next((k.value for k in node.keywords if k.arg == "axis"), None)
+                    if axis is not None and ast.unparse(axis) in ("1", "-1"):
+                        return S.matmul(v)
+                    if axis is None:
+                        return M.atom("ones", 1).matmul(S.matmul(v))
+                    raise Unsupported(f"reduction `{ast.unparse(node)}` over axis {ast.unparse(axis)}")
             if isinstance(inner, ast.Call) and ast.unparse(inner.func) == "log" and inner.args \
                     and isinstance(inner.args[0], ast.Call) and ast.unparse(inner.args[0].func) in ("diagonal", "diag"):
                 Lm = self.need_m(self.eval(inner.args[0].args[0], env))   # log(diagonal(L)).sum()
@@ -196,7 +205,12 @@ class MExpander(Expander):
             B = self.need_m(self.eval(node.args[1], env))
             return M.atom(f"inv({X})", 2).matmul(B)
         if short in ("array", "asarray", "copy", "squeeze"):
-            return self.eval(node.args[0], env)
+            v = self.eval(node.args[0], env)
+            if short == "array" and isinstance(v, ListV) and len(v.items) == 1 and isinstance(v.items[0], M) \
+                    and v.items[0].rank == 1 and isinstance(node.args[0], ast.Name):
+                # array(list of vectors): the stacked matrix whose generic row is that vector
+                return M({(("STACK", False),) + ncf.transpose_word(w): c for w, c in v.items[0].terms.items()}, 2)
+            return v
         if isinstance(f, ast.Attribute) and f.attr in ("copy", "squeeze") and not node.args:
             return self.eval(f.value, env)
         if short in ("diagonal", "diag"):
